@@ -14,6 +14,7 @@ let run_job (job : Sx.t) : string =
   | "panicrec" -> Jpanic.job_panicrec job
   | "panicparse" -> Jpanic.job_panicparse job
   | "sizes" -> Jprog.job_sizes job
+  | "lowerm" -> Jprog.job_lowerm job
   | "bristol-out" -> Jbristol.job_bristol_out job
   | "bristol-in" -> Jbristol.job_bristol_in job
   | "exhaust" -> Jexhaust.job_exhaust job
